@@ -13,6 +13,8 @@ for p in sorted(glob.glob("/verif/seeded/*/meta.json")):
         if k in m:
             a = m[k]
             after += ("; " if after else "") + "%s: %s" % (a["check"], (a.get("violated_obligations") or a.get("what") or "")[:220].replace("|", "/"))
+    if "still_missed_because" in m:
+        after = "**" + m["still_missed_because"].replace("|", "/") + "**"
     rows.append("| %s | %s | %s | %s | %s |" % (m["seed_id"], need, first, obl, after or ("-" if cr["detected"] else "**still missed**")))
 print("| seed | change (first line of its README) | first run of the property's quick check | obligations that reported it | after strengthening |\n|---|---|---|---|---|")
 print("\n".join(rows))
